@@ -21,6 +21,9 @@ KINDS: dict[str, dict[str, Any]] = {
     "co": dict(ann="VBase | None", rhs="None", child=True, coll=False),
     "cu": dict(ann="VLeaf | VFalsy | None", rhs="None", child=True, coll=False),
     "ct": dict(ann="tuple[VBase, ...]", rhs="()", child=True, coll=True),
+    # child fields that are no constructor arguments (always absent / empty here; a class may fill them itself)
+    "coni": dict(ann="VBase | None", rhs="field(default=None, init=False)", child=True, coll=False),
+    "ctni": dict(ann="tuple[VBase, ...]", rhs="field(default=(), init=False)", child=True, coll=True),
     "cf": dict(ann="tuple[VLeaf, VBase]", rhs="field(kw_only=True)", child=True, coll=True, required=True),
 }
 
